@@ -197,9 +197,16 @@ fn observe(store_us: &[U], qs: &[Q], with_body: bool) -> Value {
                     reduced
                         .map_err(|e| format!("reduce:{e}"))
                         .and_then(|t| {
-                            tx3_cardano::compile::entry_point(&t, &pp).map_err(|e| format!("compile:{e}"))
-                        })
-                        .map(|ctx| {
+                            // through the public compiler (not `compile::entry_point`, whose signature is internal)
+                            use tx3_tir::compile::Compiler as _;
+                            let mut c = store::compiler(pp, Some(0));
+                            let payload = c
+                                .compile(&tx3_tir::encoding::AnyTir::V1Beta0(t))
+                                .map_err(|e| format!("compile:{e}"))?
+                                .payload;
+                            tx3_cardano::pallas::codec::minicbor::decode::<tx3_cardano::pallas::ledger::primitives::conway::Tx>(&payload)
+                                .map_err(|e| format!("decode:{e}"))
+                                .map(|ctx| {
                             let ins: Vec<Value> = ctx
                                 .transaction_body
                                 .inputs
@@ -214,6 +221,7 @@ fn observe(store_us: &[U], qs: &[Q], with_body: bool) -> Value {
                                 .map(|i| json!([hx(i.transaction_id.as_slice()), i.index]))
                                 .collect();
                             json!({"inputs": ins, "collateral": coll})
+                                })
                         })
                 });
                 out["body"] = match body {
